@@ -41,6 +41,10 @@ def cases(tier, seed):
         if i % 6 == 5:      # far from the origin: coordinate / cell size of 1e5 .. 1e7
             g["origin"] = [rng.choice([1.0e5, -3.0e5, 2.5e6]) for _ in range(3)]
         cs.append({"gen": g, "sel_seed": seed * 71 + i, "npts": 40 if tier == "quick" else 90, "fmt": dict(ref_ratio_extra=rng.choice([0, 0, 1, 3]), trailing_blank=rng.random() < 0.7, close_blank=rng.random() < 0.3, floatfmt=rng.choice(["repr", "17g"]))})
+    # scale: a box of more than a million cells (queries anywhere inside it, its low faces included)
+    for k in range(1 if tier == "quick" else 4):
+        cs.append({"scale": "bigbox", "gen": dict(seed=seed * 31 + 1919 + k, nfields=2), "sel_seed": seed * 71 + 1919 + k,
+                   "npts": 40 if tier == "quick" else 90, "fmt": {}})
     return workload.add_reach_store(cs)
 
 
